@@ -1,7 +1,9 @@
 ------------------------------ MODULE Assemble ------------------------------
 (***************************************************************************)
 (* C17: assemble_rtf over files as sequences of classified lines.           *)
-(* A file is [kind, color, hf, pages, land]; Lines(f) is the line layout    *)
+(* A file is [kind, color, hf, pages, land, tail]; Lines(f) is the line      *)
+(* layout (tail = "para": the last page's content ends with a source        *)
+(* paragraph group instead of a table row or picture)                       *)
 (* rtflite writes for it (table documents are newline-joined; in figure     *)
 (* documents the colour table opens on the line that closes the font table  *)
 (* unless FigureColorOwnLine).  Steps of assemble_rtf:                      *)
@@ -9,7 +11,7 @@
 (*   AppendPage (between files)  ->  Write                                  *)
 (***************************************************************************)
 EXTENDS Naturals, Integers, Sequences, FiniteSets, TLC, Json
-CONSTANTS MaxFiles, Kinds, PageSet, ColorSet, HFSet, MissingSet, LandSet,
+CONSTANTS MaxFiles, Kinds, PageSet, ColorSet, HFSet, MissingSet, LandSet, TailSet,
           FigureColorOwnLine      \* deviation flag: TRUE = colour table of figure documents starts its own line
 VARIABLES files, d, phase, i, out, wrote, err
 vars == <<files, d, phase, i, out, wrote, err>>
@@ -36,13 +38,13 @@ Lines(f) ==
   \o AllPages(f, 1)
   \o << <<"blank">>, <<"close">> >>
 
-File0(n) == [id |-> n, kind |-> "table", color |-> FALSE, hf |-> FALSE, pages |-> 1, missing |-> FALSE, land |-> FALSE]
+File0(n) == [id |-> n, kind |-> "table", color |-> FALSE, hf |-> FALSE, pages |-> 1, missing |-> FALSE, land |-> FALSE, tail |-> "none"]
 Init == files = <<>> /\ d = 0 /\ phase = "pick" /\ i = 1 /\ out = <<>> /\ wrote = FALSE /\ err = "none"
 \* build the argument list one file (5 picks) at a time
 Pick == /\ phase = "pick"
         /\ \/ (/\ Len(files) < MaxFiles /\ d = 0
-               /\ \E k \in Kinds, c \in ColorSet, hfv \in HFSet, p \in PageSet, ms \in MissingSet, ld \in LandSet :
-                    files' = Append(files, [File0(Len(files) + 1) EXCEPT !.kind = k, !.color = c, !.hf = hfv, !.pages = p, !.missing = ms, !.land = ld])
+               /\ \E k \in Kinds, c \in ColorSet, hfv \in HFSet, p \in PageSet, ms \in MissingSet, ld \in LandSet, tl \in TailSet :
+                    files' = Append(files, [File0(Len(files) + 1) EXCEPT !.kind = k, !.color = c, !.hf = hfv, !.pages = p, !.missing = ms, !.land = ld, !.tail = tl])
                /\ UNCHANGED <<d, phase>>)
            \/ (d = 0 /\ phase' = "check" /\ UNCHANGED <<files, d>>)
         /\ UNCHANGED <<i, out, wrote, err>>
